@@ -2,6 +2,8 @@
 
 package sod
 
+import "regexp"
+
 // C12 — observable behaviour does not depend on indexing (and, through
 // C01/C04/C06/C10 which run under every configuration against an
 // absolute oracle, not on the storage configuration either).
@@ -91,4 +93,56 @@ func VH_C12_twin() {
 	vAssert("C12.flush.idx", db.FlushAllAndCommit(&vTwinIdx{}) == nil)
 	vAssert("C12.flush.no", db.FlushAllAndCommit(&vTwinNo{}) == nil)
 	vAssert("C12.control", db.Control() == nil)
+}
+
+// VH_C12_regex: with concrete patterns and values the indexed and the
+// un-indexed regex search both return exactly what Go's regexp matches
+// (substring semantics, anchors, flags, the empty pattern).
+func VH_C12_regex() {
+	root := vTempDir()
+	db := Open(root)
+	LowercaseNames = false
+	vAssert("C12.regex.create", db.Create(&vTwinIdx{}, DefaultSchema) == nil && db.Create(&vTwinNo{}, DefaultSchema) == nil)
+	vals := []string{"foo", "foobar", "barfoo", "xfoox", "FOO", "", "bar"}
+	var ui, un []string
+	for k, v := range vals {
+		x, y := &vTwinIdx{A: int64(k), S: v}, &vTwinNo{A: int64(k), S: v}
+		vAssert("C12.regex.insert", db.InsertOrUpdate(x) == nil && db.InsertOrUpdate(y) == nil)
+		ui, un = append(ui, x.UUID()), append(un, y.UUID())
+	}
+	pats := []string{"foo", "^foo$", "", "^foo", "foo$", "fo+", "(?i:foo)", "bar", "^$", "o", "[", "x.*x"}
+	pat := pats[vChoice("pattern", len(pats))]
+	viaAnd := vChoice("via_and", 2) == 1
+	var si, sn *Search
+	if viaAnd {
+		si = db.Search(&vTwinIdx{}, "A", ">=", int64(0)).And("S", "~=", pat)
+		sn = db.Search(&vTwinNo{}, "A", ">=", int64(0)).And("S", "~=", pat)
+	} else {
+		si, sn = db.Search(&vTwinIdx{}, "S", "~=", pat), db.Search(&vTwinNo{}, "S", "~=", pat)
+	}
+	re, cerr := regexp.Compile(pat)
+	vAssert("C12.regex.error_iff_invalid.indexed", (si.Err() != nil) == (cerr != nil))
+	vAssert("C12.regex.error_iff_invalid.unindexed", (sn.Err() != nil) == (cerr != nil))
+	if cerr != nil || si.Err() != nil || sn.Err() != nil {
+		return
+	}
+	oi, ei := si.Collect()
+	on, en := sn.Collect()
+	vAssert("C12.regex.collect", ei == nil && en == nil)
+	for k, v := range vals {
+		want := re.MatchString(v)
+		ci, cn := 0, 0
+		for _, o := range oi {
+			if o.UUID() == ui[k] {
+				ci++
+			}
+		}
+		for _, o := range on {
+			if o.UUID() == un[k] {
+				cn++
+			}
+		}
+		vAssert("C12.regex.indexed_matches_regexp", (ci == 1) == want && ci <= 1)
+		vAssert("C12.regex.unindexed_matches_regexp", (cn == 1) == want && cn <= 1)
+	}
 }
